@@ -1,7 +1,7 @@
 (* C07 — Compaction never changes what a read at or above the compaction revision sees.
    Property theorems only: each is closed by `exact <lemma>` and followed by Print Assumptions. *)
 From KB Require Import Base.Cases Model.Coder Model.CompactSys Model.C07Cases
-  Proofs.Coder Proofs.CompactSafe Proofs.CompactPass Proofs.CompactReads.
+  Proofs.Coder Proofs.CompactSafe Proofs.CompactReads Proofs.CompactWf Proofs.CompactPass Proofs.CompactRanges Proofs.CompactBorders.
 From Coq Require Import Sorted.
 Local Open Scope N_scope.
 
@@ -35,6 +35,22 @@ Theorem C07_pass_sequential : forall R V snap (os : list outcome),
 Proof. exact scan_safe_seq. Qed.
 Print Assumptions C07_pass_sequential.
 
+(* Backend.compact = one scan per border pair, each over the sorted records of its range with a fresh worker
+   (no concurrent writers): for every store, every list of ranges, every R and every assignment of outcomes to
+   the engine deletes, every delete is safe, reads at every revision >= R are unchanged, the relaxed
+   well-formedness is kept, nothing appears, and every record that disappeared belongs to a key inside one of
+   the ranges - nothing outside the compaction ranges is touched *)
+Theorem C07_pass_all_ranges : forall R V ranges (os : list outcome),
+  let d := compact_all R 0 ranges (init_d V (map (fun o => ([], o)) os)) in
+  store_ok V -> uniq_ver V -> good d ->
+  Forall (fun s => ds_safe s = true) (d_trace d) /\
+  veq R (d_store d) V /\
+  (forall y, In y (d_store d) -> In y V) /\
+  (forall y, In y V -> In y (d_store d) \/ touched ranges (rkey y)) /\
+  (wfd V -> wfd (d_store d)).
+Proof. exact compact_all_safe. Qed.
+Print Assumptions C07_pass_all_ranges.
+
 (* the executable reads are functions of `visible`: Get (hence deleted keys do not reappear, live keys
    do not vanish) and List/Count over any key list agree on stores that read the same from R on *)
 Theorem C07_get_spec : forall V R k r v, uniq_ver V -> (get_at V R k = Some (r, v) <-> visible V R k r v).
@@ -51,13 +67,83 @@ Theorem C07_list_unchanged : forall R A B R' ks,
 Proof. exact veq_list_keys. Qed.
 Print Assumptions C07_list_unchanged.
 
+(* List and Count as specified by the snapshot semantics (sorted by key, exactly the visible keys of the range):
+   the result is determined by the specification and is the same on stores that read the same from R on *)
+Theorem C07_list_count_unchanged : forall R A B lo hi R' l1 l2,
+  veq R A B -> R <= R' -> list_spec A lo hi R' l1 -> list_spec B lo hi R' l2 -> l1 = l2 /\ length l1 = length l2.
+Proof. exact list_unchanged. Qed.
+Print Assumptions C07_list_count_unchanged.
+
 Theorem C07_no_reappear_no_vanish : forall R A B R' k,
   uniq_ver A -> uniq_ver B -> veq R A B -> R <= R' -> (get_at A R' k = None <-> get_at B R' k = None).
 Proof. exact veq_absent. Qed.
 Print Assumptions C07_no_reappear_no_vanish.
 
+(* C07_borders. Full statement: for every configuration whose skipped prefixes are under prefix/ and pairwise
+   non-nested (hence duplicate-free), the ranges of getCompactBorders are exactly the keys in charge *)
+Definition C07_borders_full_statement : Prop :=
+  forall p sk k, alpha p -> Forall alpha sk -> alpha k -> last_is slash p = false ->
+  Forall (fun s => last_is slash s = false) sk -> good_config p sk = true ->
+  existsb (fun lh => bleb (fst lh) k && bltb k (snd lh)) (ranges_of p sk) = in_charge p sk k.
+
+(* proved for the configurations with no and with one skipped prefix (the general case is checked on every
+   run by borders_oracle on the real getCompactBorders; nested / duplicated / not-under-prefix configurations
+   refute the unrestricted statement, see C07_borders_refuted_* below) *)
+Theorem C07_borders_none_partial : forall p k,
+  alpha p -> alpha k -> last_is slash p = false ->
+  ranges_of p [] = [(p ++ [47], p ++ [48])] /\
+  existsb (fun lh => bleb (fst lh) k && bltb k (snd lh)) (ranges_of p []) = in_charge p [] k.
+Proof. exact borders_none. Qed.
+Print Assumptions C07_borders_none_partial.
+
+Theorem C07_borders_one_partial : forall p t k,
+  alpha p -> alpha t -> alpha k -> last_is slash p = false -> last_is slash (p ++ [47] ++ t) = false -> t <> [] ->
+  let s := p ++ [47] ++ t in
+  ranges_of p [s] = [(p ++ [47], s ++ [47]); (s ++ [48], p ++ [48])] /\
+  existsb (fun lh => bleb (fst lh) k && bltb k (snd lh)) (ranges_of p [s]) = in_charge p [s] k.
+Proof. exact borders_one. Qed.
+Print Assumptions C07_borders_one_partial.
+
+(* the relaxed well-formedness ("one index per key; a live index names the newest version, which is not a
+   tombstone; a flagged or a MISSING index sits above a version list that is empty or ends in a tombstone")
+   survives the pass, whatever deletes fail and wherever it dies (no concurrent writers) *)
+Theorem C07_wf_preserved : forall R V snap (os : list outcome),
+  let oc := map (fun o => ([], o)) os in
+  scan_ok R V snap oc -> good (scan R V snap oc) -> wfd V -> wfd (d_store (scan R V snap oc)).
+Proof. exact scan_wf. Qed.
+Print Assumptions C07_wf_preserved.
+
+(* each single safe removal keeps it (the step the pass is made of) *)
+Theorem C07_wf_step : forall R V x,
+  wfd V -> premise R V x -> (forall k r d, x = RIdx k r d -> d = true /\ In x V) -> wfd (del_slot x V).
+Proof. exact wfd_del. Qed.
+Print Assumptions C07_wf_step.
+
+(* ... and under it every key stays writable with normal semantics: with a freshly dealt revision n,
+   Create succeeds iff the key reads absent at the latest revision, Update iff its latest visible version
+   carries the expected revision, Delete iff it is visible and the expected revision (0 = any) matches *)
+Theorem C07_create_semantics : forall V k v n,
+  wfd V -> fresh V n -> (snd (do_create V k v n) = WOk <-> get_at V max_rev k = None).
+Proof. exact create_semantics. Qed.
+Print Assumptions C07_create_semantics.
+
+Theorem C07_update_semantics : forall V k v prev n,
+  wfd V -> fresh V n -> prev <> 0 -> prev <= n ->
+  (snd (do_update V k v prev n) = WOk <-> exists v0, get_at V max_rev k = Some (prev, v0)).
+Proof. exact update_semantics. Qed.
+Print Assumptions C07_update_semantics.
+
+Theorem C07_delete_semantics : forall V k e n,
+  wfd V -> fresh V n -> e <= n ->
+  (snd (do_delete V k e n) = WOk <-> exists r v0, get_at V max_rev k = Some (r, v0) /\ (e = 0 \/ e = r)).
+Proof. exact delete_semantics. Qed.
+Print Assumptions C07_delete_semantics.
+
 (* ---------- non-vacuity and the hypotheses that are needed ---------- *)
 
+Definition P : bytes := [47;114].                        (* "/r" *)
+Definition Ps : bytes := [47;114;47;115].                (* "/r/s" *)
+Definition Pss : bytes := [47;114;47;115;47;116].        (* "/r/s/t" *)
 Definition ka : bytes := [97].
 Definition kb : bytes := [98].
 Definition exV : store :=
@@ -83,6 +169,65 @@ Proof.
            | H : RIdx _ _ _ = RVer _ _ _ |- _ => discriminate H
            end; congruence.
   - intros k r v Hy. cbn in Hy. repeat (destruct Hy as [Hy|Hy]; [try discriminate; injection Hy as <- <- <-; lia|]). destruct Hy.
+Qed.
+
+Ltac split_in :=
+  repeat match goal with
+         | H : In _ (_ :: _) |- _ => destruct H as [H|H]
+         | H : In _ [] |- _ => destruct H
+         | H : _ \/ _ |- _ => destruct H as [H|H]
+         | H : False |- _ => destruct H
+         | H : RIdx _ _ _ = RVer _ _ _ |- _ => discriminate H
+         | H : RVer _ _ _ = RIdx _ _ _ |- _ => discriminate H
+         end.
+
+(* exV is well-formed (ka deleted: flagged index above value, value, tombstone; kb live) *)
+Example C07_ex_wfd : wfd exV.
+Proof.
+  split; [|split].
+  - intros k r d r' d' H1 H2. unfold exV, ka, kb in *. split_in; split; congruence.
+  - intros k r v v' H1 H2. unfold exV, ka, kb in *. split_in; congruence.
+  - intros k. unfold exV, ka, kb. split; [|split].
+    + intros r H. split_in; try discriminate.
+      injection H as <- <-. exists [5]. split; [split; [cbn; auto 10|]|discriminate].
+      intros r' v' H'. split_in; try discriminate; injection H' as <- _; lia.
+    + intros r H. split_in; try discriminate.
+      injection H as <- <-. right. split; [cbn; auto 10|].
+      intros r' v' H'. split_in; try discriminate; injection H' as <- _; lia.
+    + intros Hn. left. intros r v H. split_in; injection H as <- _ _;
+        first [solve [apply (Hn 103 true); cbn; auto 10]|solve [apply (Hn 105 false); cbn; auto 10]].
+Qed.
+
+(* a relaxed state reached by a pass that failed after removing the index: [value; tombstone] with no index;
+   the key reads absent and Create succeeds *)
+Example C07_ex_relaxed_state :
+  let os := [OOk; OFailOther] in
+  let V' := d_store (scan 105 exV exV (map (fun o => ([], o)) os)) in
+  V' = [RVer ka 101 [1]; RVer ka 102 [2]; RVer ka 103 tombstone; RIdx kb 105 false; RVer kb 105 [5]] /\
+  get_at V' max_rev ka = None /\ snd (do_create V' ka [9] 106) = WOk /\ snd (do_update V' ka [9] 102 106) = WFalse /\
+  snd (do_delete V' ka 0 106) = WFalse /\ snd (do_delete V' kb 105 106) = WOk.
+Proof. vm_compute. repeat split. Qed.
+
+Example C07_ex_store_ok : store_ok exV.
+Proof.
+  split.
+  - unfold exV, ka, kb. repeat (constructor; [cbn; intros H; split_in; discriminate|]). constructor.
+  - intros a b Ha Hb. unfold exV in *. split_in; subst; vm_compute; intros H; try reflexivity; discriminate.
+  - intros y Hy. unfold exV in Hy. split_in; subst; discriminate.
+  - intros k r v Hy. unfold exV in Hy. split_in; try discriminate; injection Hy as _ <- _; lia.
+Qed.
+
+(* Backend.compact over the borders of prefix "/" + nothing skipped would be one range; here two ranges that
+   split ka from kb, the second delete failing: ka keeps its versions, kb is compacted *)
+Example C07_ex_all_ranges :
+  let d := compact_all 105 0 [([97], [98]); ([98], [99])] (init_d exV (map (fun o => ([], o)) [OOk; OFailOther])) in
+  d_store d = [RVer ka 101 [1]; RVer ka 102 [2]; RVer ka 103 tombstone; RIdx kb 105 false; RVer kb 105 [5]].
+Proof. vm_compute. reflexivity. Qed.
+
+Example C07_ex_fresh : fresh exV 106.
+Proof.
+  split; [vm_compute; discriminate|]. unfold exV. split; intros k r x H; split_in; try discriminate;
+    first [injection H as _ <- _|injection H as _ <-]; lia.
 Qed.
 
 Example C07_ex_good : good (scan 105 exV exV exOc).
@@ -120,10 +265,12 @@ Example C07_order_needed :
   get_at (del_slot (RVer ka 103 tombstone) exV) 105 ka = Some (102, [2]).
 Proof. vm_compute. split; reflexivity. Qed.
 
+Example C07_ex_borders_one_hyps :
+  alpha P /\ alpha [115] /\ last_is slash P = false /\ last_is slash (P ++ [47] ++ [115]) = false /\
+  in_charge P [Ps] (P ++ [47;120]) = true /\ in_charge P [Ps] (Ps ++ [47;120]) = false /\ good_config P [Ps] = true.
+Proof. repeat split; try (vm_compute; reflexivity); repeat constructor. Qed.
+
 (* compaction borders: nested / duplicated skipped prefixes compact inside a skipped range (finding C07-F1) *)
-Definition P : bytes := [47;114].                        (* "/r" *)
-Definition Ps : bytes := [47;114;47;115].                (* "/r/s" *)
-Definition Pss : bytes := [47;114;47;115;47;116].        (* "/r/s/t" *)
 Example C07_borders_refuted_nested :
   in_charge P [Ps; Pss] (Pss ++ [47;121]) = false /\
   existsb (fun lh => in_range (fst lh) (snd lh) (RVer (Pss ++ [47;121]) 1 [])) (ranges_of P [Ps; Pss]) = true.
